@@ -27,7 +27,7 @@ def obligations(cx):
     k = var('k', 'I')
     for cfg in cfgs:
         tag = cfg.tag()
-        pv, kw, ps = procs.run(cx, cfg)
+        pv, kw, ps = procs.run(cx, cfg, extra_contracts={'__allow_shape_change__': True})
         fn = 'Pervaporation.' + cfg.func
         steps = procs.normal_steps(ps)
         cx.ob(tag + ".paths", [], blit(len(steps) >= 1 and all(p.outcome == 'raise' or (isinstance(p.value, Obj) and p.value.cls == 'ProcessModel') for p in ps)),
@@ -35,6 +35,9 @@ def obligations(cx):
         cx.requires_obs(tag, [s.path for s in steps])
         for si, st in enumerate(steps):
             t = "%s.path%d" % (tag, si)
+            changes = [n for n in st.ex.notes if isinstance(n, dict) and 'shape_change' in n]
+            cx.ob(t + ".series-keep-their-shape", [], blit(not changes), kind='paths', function=fn, found=str(changes),
+                  statement="every element of a reported series has the shape of its first element (in particular feed compositions are mass fractions from step 0 on)")
             J = st.appended('partial_fluxes')
             m_k = st.read('feed_mass', 0); m_n = st.appended('feed_mass')
             xk = st.read('feed_composition', 0); xn = st.appended('feed_composition')
@@ -74,7 +77,7 @@ def obligations(cx):
             same = True
             for fld, lst in (('feed_mass', 'feed_mass'), ('feed_compositions', 'feed_composition'), ('partial_fluxes', 'partial_fluxes'), ('permeate_composition', 'permeate_composition')):
                 v = st.field(fld)
-                same = same and isinstance(v, Post) and v.grow is st.lists[lst]
+                same = same and isinstance(v, Post) and lst in st.lists and v.grow is st.lists[lst]
             cx.ob(t + ".model-exposes-the-series", [], blit(same), kind='paths', function=fn,
                   statement="the reported series are the lists built by the step loop (look-ahead element removed)")
             if si == 0: cx.must_fail(t + ".time-grid", st.pc + [k >= 1, k < N], eq(tm.fn(k), DT * (k + 1)) if isinstance(tm, Seq) else FALSE)
